@@ -15,7 +15,7 @@ for id in $ids; do
   git -C /repo apply $PWD/$p
   out=$(timeout 1500 bin/check ${id:0:3} --tier quick 2>&1)
   rc=$?
-  git -C /repo checkout -- .
+  git -C /repo checkout -- .; python3 tools/translate.py >/dev/null   # Gen*.v back to the unchanged tree
   nv=$(echo "$out" | grep -c '^VIOLATION')
   nf=$(echo "$out" | grep -c 'no-failing-input-found')
   last=$(echo "$out" | tail -1)
